@@ -21,14 +21,14 @@ RULE = ('rows = (rule set over names {a,b,default} each absent/@/!/role:x/role:y
         'not defined in the rule set (the fallback decides); distinct = distinct row. Stratum `mutation`: the same table re-checked after the '
         'rule set of a living enforcer changed (merge without overwrite, direct store update, item assignment / deletion, overwrite, '
         'file reload in non-overwrite mode), against the CURRENT rule set. Stratum `registered`: a registered default that no file mentions stays '
-        'defined (never decided by the default rule) through histories of policy.d edits, deletions and forced reloads, with and without a main file. Stratum `overlap`: two decisions on one enforcer at the same time (second one runs at sampled line boundaries of the first, deterministic scheduler), each decided as the table says.')
+        'defined (never decided by the default rule) through histories of policy.d edits, deletions and forced reloads, with and without a main file. A third of the table rows run with the debug logging of the library switched on. Stratum `reload`: a name defined in the main policy file (and an unknown name with a usable default) decided while the enforce call of another thread re-reads the rewritten main file in which those definitions stand unchanged (reloader pre-empted at sampled line boundaries). Stratum `overlap`: two decisions on one enforcer at the same time (second one runs at sampled line boundaries of the first, deterministic scheduler), each decided as the table says.')
 ASSUMPTIONS = ['rule bodies contain no rule: references (reference cycles through the default are C06/C13 territory)',
                'role:x / role:y / @ / ! leaves evaluate as C01/C04 state']
 LEVEL_TEXT = ('The complete decision table of the statement (about 1.3e5 rows) is driven through the real enforcer and '
               'compared row by row; a finite quantifier, so enumeration is the right level.')
 LEVEL_NOTE = 'trusted: the 12-line reference function; the name/role universe is small by design'
 PLAN = {'quick': dict(shards=4, wall=90), 'thorough': dict(shards=8, wall=300)}
-MIN = {'overlapping_evaluations': 200, 'registered_decisions': 2000, 'mutation_decisions': 20000, 'evaluations': 10000, 'fallback_rows': 2000, 'allow_decisions': 1000, 'deny_decisions': 1000}
+MIN = {'overlapping_evaluations': 200, 'decisions_during_reload': 100, 'configs_under_debug_logging': 100, 'registered_decisions': 2000, 'mutation_decisions': 20000, 'evaluations': 10000, 'fallback_rows': 2000, 'allow_decisions': 1000, 'deny_decisions': 1000}
 ANCHORS = ['oslo_policy.policy:Rules.__missing__', 'oslo_policy.policy:Enforcer.enforce',
            'oslo_policy.policy:Enforcer.set_rules', 'oslo_policy.policy:Rules.__init__']
 REQUIRED_ANCHORS = ['oslo_policy.policy:Enforcer.enforce']
@@ -108,9 +108,14 @@ def build(rules, dcfg, via):
     return enf, tree
 
 
-def check_config(ctx, rules, dcfg, via):
+def check_config(ctx, rules, dcfg, via, debug=False):
     from oslo_policy import policy
     enf, tree = build(rules, dcfg, via)
+    dbg = env.debug_logging() if debug else None
+    if dbg:
+        # the library's own debug logging (it describes every decision) must not change any row
+        dbg.__enter__()
+        ctx.count('configs_under_debug_logging')
     try:
         for q in QUERIES:
             for roles in CREDS:
@@ -140,14 +145,16 @@ def check_config(ctx, rules, dcfg, via):
                             key = 'unusable-default-allows'
                         else:
                             key = 'usable-default-not-applied'
-                        ctx.violation(key, dict(rules=rules, dcfg=dcfg, via=via),
-                                      {'row': row, 'expected': want, 'observed': got})
+                        ctx.violation(key, dict(rules=rules, dcfg=dcfg, via=via, debug=debug),
+                                      {'row': row, 'expected': want, 'observed': got, 'library_debug_logging': debug})
         ctx.observe('configs', '%s/%s' % (dcfg, via))
     finally:
+        if dbg:
+            dbg.__exit__(None, None, None)
         if tree:
             tree.cleanup()
     for name, info in contracts.drain():
-        ctx.violation('contract-' + name, dict(rules=rules, dcfg=dcfg, via=via), {'contract': name, 'observed': info})
+        ctx.violation('contract-' + name, dict(rules=rules, dcfg=dcfg, via=via, debug=debug), {'contract': name, 'observed': info})
 
 
 def table_ok(ctx, enf, rules, dcfg, case, label):
@@ -320,6 +327,66 @@ def check_overlap(ctx, case):
             tree.cleanup()
 
 
+RELOAD_SETS = [
+    # (main file before, main file after): the queried names and the default rule are defined in both, with the same bodies
+    ({'a': '!', 'default': '@', 'x1': '@'}, {'a': '!', 'default': '@', 'x2': '!', 'x3': '@'}),
+    ({'default': '@', 'b': 'role:x', 'a': '!'}, {'zz': '!', 'default': '@', 'a': '!', 'b': 'role:x'}),
+    ({'a': 'role:y', 'b': '!', 'default': '@'}, {'a': 'role:y', 'b': '!', 'default': '@'}),
+    ({'m1': '@', 'm2': '@', 'a': '!', 'default': 'role:x'}, {'a': '!', 'default': 'role:x'}),
+]
+
+
+def check_reload(ctx, case):
+    """A defined name is decided by its own definition, never by the default rule - also while another thread's enforce
+    call is re-reading the (rewritten) policy file in which that definition stands unchanged.  Every rule lives in the main
+    file (no directories, no registered defaults), so the complete old and the complete new policy agree on the queried names."""
+    from oslo_policy import policy
+    from pv.mon import sched
+    old, new = case['old'], case['new']
+    q, roles = case['q'], case['roles']
+    want = reference(new, 'unset', q, roles)
+    assert want == reference(old, 'unset', q, roles)
+    ctx.case(['reload', old, new, q, roles], q in new, 'reload')
+    n = None
+    replaying_one = ctx.replay and case.get('k')
+    ks = [case['k']] if replaying_one else [None]       # a replay file names the one pre-emption point that failed
+    i = 0
+    while i < len(ks):
+        k = ks[i]
+        i += 1
+        tree = files.Tree(dirs=())
+        try:
+            name = os.path.basename(tree.main)
+            tree.write(name, materialise(old), 'json')
+            enf = policy.Enforcer(tree.conf(policy_dirs=[]))
+            enf.load_rules()
+
+            def dec(nm, rs):
+                def run_():
+                    try:
+                        return bool(enf.enforce(nm, {}, {'roles': list(rs)}))
+                    except Exception as e:
+                        return 'EXC:' + type(e).__name__
+                return run_
+            plan = [['EDIT'], ['X', k], ['Y', None], ['X', None]] if k else [['EDIT'], ['X', None], ['Y', None]]
+            r = sched.Run({'X': dec('x-reloader', []), 'Y': dec(q, roles)}, plan, lambda: tree.write(name, materialise(new), 'json'))
+            res = r.run()
+            ctx.count('decisions_during_reload')
+            if k is None and not replaying_one:
+                n = r.counts['X']
+                ctx.observe('reload_boundaries', n)
+                from pv.mon import overlap
+                ks.extend(overlap.boundaries(n, case.get('limit', 60), ctx.sub_rnd('Rb', case['rseed'])))
+            if res.get('Y') != want:
+                ctx.violation('defined-name-decided-by-something-else' if q in new else 'usable-default-not-applied',
+                              dict(case, k=k), {'main_file_before': old, 'main_file_after': new, 'queried': q, 'roles': roles,
+                                                'expected_under_both_policies': want, 'observed_during_reload': res.get('Y'),
+                                                'reloader_preempted_at_boundary': k, 'reloader_preempted_at': list(r.stopped_at.get('X', []))})
+                return
+        finally:
+            tree.cleanup()
+
+
 def gen_overlap(ctx, i):
     r = ctx.sub_rnd('O', ctx.tier, ctx.shard, i)
     while True:
@@ -333,12 +400,14 @@ def gen_overlap(ctx, i):
 
 
 OVERLAPS = {'quick': 10, 'thorough': 200}
+RELOADS = {'quick': 4, 'thorough': 60}
 
 
 def run(ctx):
     contracts.missing_never_none()
     idx = 0
     done = True
+    ctx.reserve(0.4)
     for ba, bb, bd in itertools.product(BODIES, repeat=3):
         rules = {k: v for k, v in (('a', ba), ('b', bb), ('default', bd)) if v is not None}
         for dcfg in DCFGS:
@@ -349,7 +418,7 @@ def run(ctx):
                 if ctx.expired():
                     done = False
                     break
-                check_config(ctx, rules, dcfg, via)
+                check_config(ctx, rules, dcfg, via, debug=(idx // ctx.nshards) % 3 == 1)
                 if idx % 400 == 0:
                     ctx.sample({'rules': rules, 'default_config': dcfg, 'installed_via': via, 'queried': QUERIES,
                                 'role_sets': CREDS})
@@ -359,6 +428,7 @@ def run(ctx):
     changes = [{'default': '!'}, {'default': '@'}, {'b': '@'}, {'b': '!'}, {'default': 'role:y', 'a': '@'}, {'a': 'role:x'}, {'ghost': '@'}]
     midx = 0
     mdone = True
+    ctx.reserve(0.6)
     for ba, bb, bd in itertools.product(BODIES, repeat=3):
         rules = {k: v for k, v in (('a', ba), ('b', bb), ('default', bd)) if v is not None}
         if not rules or 'NULL' in rules.values():
@@ -384,6 +454,7 @@ def run(ctx):
     ctx.stratum('mutation', exhaustive=mdone and ctx.tier == 'thorough')
     # ---- registered defaults under file histories -------------------------------
     ridx = 0
+    ctx.reserve(0.75)
     step_sets = [['edit-dir'], ['force'], ['edit-dir', 'force'], ['delete-dir-file'], ['edit-dir', 'delete-dir-file'],
                  ['edit-main', 'edit-dir'], ['force', 'edit-dir', 'force']]
     for main in (None, {'a': 'role:x'}, {'default': '!'}):
@@ -399,11 +470,21 @@ def run(ctx):
     # ---- two overlapping decisions, last (the line-level scheduler slows everything that runs after it is installed)
     from pv.mon import sched
     ctx.stratum('overlap', exhaustive=False)
+    ctx.reserve(0.88)
     try:
         for i in range(OVERLAPS[ctx.tier]):
             if ctx.expired():
                 break
             check_overlap(ctx, gen_overlap(ctx, i))
+        ctx.release()
+        ctx.stratum('reload', exhaustive=False)
+        for i in range(RELOADS[ctx.tier]):
+            if ctx.expired():
+                break
+            r = ctx.sub_rnd('R', ctx.tier, ctx.shard, i)
+            old, new = RELOAD_SETS[(i + ctx.shard) % len(RELOAD_SETS)]
+            check_reload(ctx, dict(reload=True, old=old, new=new, q=r.choice(['a', 'a', 'b', 'zzz', 'default']), roles=r.choice(CREDS),
+                                   limit=40 if ctx.tier == 'quick' else 400, rseed='%s.%d.%d' % (ctx.tier, ctx.shard, i)))
     finally:
         sched.uninstall()
     for k, v in contracts.EVALS.items():
@@ -414,8 +495,10 @@ def replay(ctx, case):
     contracts.missing_never_none()
     if case.get('overlap'):
         return check_overlap(ctx, case)
+    if case.get('reload'):
+        return check_reload(ctx, case)
     if 'mutation' in case:
         return check_mutation(ctx, case)
     if case.get('registered'):
         return check_registered(ctx, case)
-    check_config(ctx, case['rules'], case['dcfg'], case['via'])
+    check_config(ctx, case['rules'], case['dcfg'], case['via'], bool(case.get('debug')))
